@@ -13,9 +13,9 @@ Open Scope Z_scope.
 
 Definition define_fn := obj -> key -> desc -> bool -> obj * dres.
 (* otto's clamps / the ES5 clamps around one and the same [[DefineOwnProperty]] *)
-Definition with_otto_clamps (df : define_fn) : dialect := mkDia df otto_rel otto_cnt otto_indexof otto_lastindexof.
-Definition with_es5_clamps (df : define_fn) : dialect :=
-  mkDia df (dia_rel es5) (dia_cnt es5) (dia_indexof es5) (dia_lastindexof es5).
+Definition with_otto_clamps (df : define_fn) (ts cf : bool) : dialect := mkDia df otto_rel otto_cnt otto_indexof otto_lastindexof ts cf.
+Definition with_es5_clamps (df : define_fn) (ts cf : bool) : dialect :=
+  mkDia df (dia_rel es5) (dia_cnt es5) (dia_indexof es5) (dia_lastindexof es5) ts cf.
 
 Lemma bind_ext : forall A B (m : M A) (f g : A -> M B),
   (forall a s, f a s = g a s) -> forall s, bind m f s = bind m g s.
@@ -36,7 +36,8 @@ Lemma m_len_ext : forall B (f g : Z -> M B),
   (forall len, 0 <= len < 2 ^ 53 -> forall s, f len s = g len s) -> forall s, bind m_len f s = bind m_len g s.
 Proof.
   intros B f g H s. unfold m_len, bind, m_get.
-  destruct (to_uint32 (get (s_o s) KLen)) as [n | ] eqn:E; unfold opt_m, ret, throw; [ | reflexivity].
+  set (s1 := if s_lg s then _ else s).
+  destruct (to_uint32 (get (s_o s1) KLen)) as [n | ] eqn:E; unfold opt_m, ret, throw; [ | reflexivity].
   apply H. eapply to_uint32_range. exact E.
 Qed.
 
@@ -48,8 +49,9 @@ Qed.
 
 Section Clamps.
 Variable df : define_fn.
-Let D1 := with_otto_clamps df.
-Let D2 := with_es5_clamps df.
+Variables ts cf : bool.
+Let D1 := with_otto_clamps df ts cf.
+Let D2 := with_es5_clamps df ts cf.
 
 Theorem slice_clamps : forall args s, m_slice D1 args s = m_slice D2 args s.
 Proof.
@@ -97,12 +99,13 @@ Proof.
   unfold bind at 1 3. rewrite E. reflexivity.
 Qed.
 
-(* the other fourteen methods do not use the clamps at all *)
+(* the other sixteen methods do not use the clamps at all *)
 Theorem other_methods_clamps :
   m_join = m_join /\ m_pop D1 = m_pop D2 /\ m_push D1 = m_push D2 /\ m_reverse D1 = m_reverse D2 /\
   m_shift D1 = m_shift D2 /\ m_unshift D1 = m_unshift D2 /\ m_every D1 = m_every D2 /\ m_some D1 = m_some D2 /\
   m_foreach D1 = m_foreach D2 /\ m_map D1 = m_map D2 /\ m_filter D1 = m_filter D2 /\
-  m_reduce D1 = m_reduce D2 /\ m_reduceright D1 = m_reduceright D2 /\ m_concat = m_concat.
+  m_reduce D1 = m_reduce D2 /\ m_reduceright D1 = m_reduceright D2 /\ m_concat = m_concat /\
+  m_tostring D1 = m_tostring D2 /\ m_tolocalestring = m_tolocalestring.
 Proof. repeat split. Qed.
 
 (* every method of the table *)
@@ -114,8 +117,8 @@ Theorem methods_clamps : forall m args s,
   end.
 Proof.
   intros m args s.
-  assert (Hm : (m < 0 \/ 17 < m) \/ In m [0; 1; 2; 3; 4; 5; 6; 7; 8; 9; 10; 11; 12; 13; 14; 15; 16; 17]).
-  { destruct (Z_lt_dec m 0); [left; left; assumption |]. destruct (Z_lt_dec 17 m); [left; right; assumption |].
+  assert (Hm : (m < 0 \/ 19 < m) \/ In m [0; 1; 2; 3; 4; 5; 6; 7; 8; 9; 10; 11; 12; 13; 14; 15; 16; 17; 18; 19]).
+  { destruct (Z_lt_dec m 0); [left; left; assumption |]. destruct (Z_lt_dec 19 m); [left; right; assumption |].
     right. cbn [In]. lia. }
   destruct Hm as [Hout | Hin].
   - assert (E1 : method D1 m = None) by (destruct m as [ | p | p]; [lia | | reflexivity];
